@@ -3,11 +3,32 @@ wrap_line of either target.  `judge` is the oracle; `attach` re-binds the two
 module attributes the generators really call (they were bound with
 functools.partial at import time, so decorating wrap_line_base alone would be
 bypassed) with icontract-checked versions."""
+import re
 import shlex
 
 
-def lex(line):
-    return shlex.split(line, posix=False)
+_PY_TOKEN = re.compile(r"""'(?:\\.|[^'\\])*'|"(?:\\.|[^"\\])*"|[^\s'"]\S*""")
+
+
+def lex(line, marker=None):
+    """The monitor's own notion of a token: a blank-separated word; a quote at the start of a word opens a string
+    that runs to the matching quote and ends the word.  For Python (marker backslash) a backslash inside a string
+    escapes the next character, as in the language (written independently of the repository's lexer, as a
+    regular expression); for Fortran there are no escapes."""
+    if marker != "\\":
+        return shlex.split(line, posix=False)
+    out = []
+    i, n = 0, len(line)
+    while i < n:
+        if line[i] in " \t\r\n":
+            i += 1
+            continue
+        m = _PY_TOKEN.match(line, i)
+        if m is None:
+            raise ValueError("No closing quotation")
+        out.append(m.group(0))
+        i = m.end()
+    return out
 
 
 def strip_cont(lines, marker):
@@ -26,7 +47,7 @@ def strip_cont(lines, marker):
 def judge(line, level, width, indentation, result, marker):
     """Returns None or (mech, text)."""
     try:
-        tokens = lex(line)
+        tokens = lex(line, marker)
     except ValueError:
         return None            # unbalanced quote: not a token sequence
     if not isinstance(result, list) or not all(isinstance(x, str) for x in result):
@@ -36,7 +57,7 @@ def judge(line, level, width, indentation, result, marker):
         return ("continued-line-without-marker",
                 f"a non-final line does not end in {marker!r}: {result}")
     try:
-        got = lex(joined)
+        got = lex(joined, marker)
     except ValueError as ex:
         return ("output-not-lexable", f"{ex}: {result}")
     if got != tokens:
@@ -49,7 +70,7 @@ def judge(line, level, width, indentation, result, marker):
     for i, ln in enumerate(result):
         body = ln[:-1] if i < len(result) - 1 else ln
         try:
-            ntok = len(lex(body))
+            ntok = len(lex(body, marker))
         except ValueError:
             ntok = 2
         if ntok > 1 and ind + len(ln) > width:
@@ -71,7 +92,7 @@ def judge_emitted_pieces(text, pieces, marker, width=80):
             continue
         body = st[:-1] if st.endswith(marker) else st
         try:
-            ntok = len(lex(body))
+            ntok = len(lex(body, marker))
         except ValueError:
             ntok = 2
         if ntok > 1:
@@ -98,7 +119,7 @@ def judge_emitted_text(text, marker, comment, width=80):
             continue
         body = st[:-1] if st.endswith(marker) else st
         try:
-            ntok = len(lex(body))
+            ntok = len(lex(body, marker))
         except ValueError:
             ntok = 2
         if ntok > 1:
